@@ -52,6 +52,8 @@ def f1(spec, x):
         return (x,)
     if op == 'pair':
         return (x, spec[1])
+    if op == 'torange':     # a collection that is neither list nor dict nor tuple (Client.scatter would unpack it)
+        return range(x, x + spec[1])
     if op == 'totuple':
         return tuple(x)
     if op == 'wmod':
